@@ -422,6 +422,30 @@ func main() {
 					add, goat := strings.Index(src, "AddConn("), strings.Index(src, "go func()")
 					facts["registersBeforeSpawn"] = add >= 0 && goat >= 0 && add < goat
 					facts["handshakeInConnGoroutine"] = strings.Contains(src, "Handshake()") && strings.Index(src, "Handshake()") > goat
+				case "Server.Start":
+					// the goroutines Start spawns own what they were started with: inside a go statement no field of
+					// the server that the lifecycle caller writes (the listeners, the TLS configuration) is read
+					owns, spawned := true, 0
+					ast.Inspect(d.Body, func(n ast.Node) bool {
+						g, ok := n.(*ast.GoStmt)
+						if !ok {
+							return true
+						}
+						spawned++
+						ast.Inspect(g, func(m ast.Node) bool {
+							if se, ok := m.(*ast.SelectorExpr); ok {
+								if id, ok := se.X.(*ast.Ident); ok && id.Name == "server" {
+									switch se.Sel.Name {
+									case "portListener", "tlsPortListener", "tlsConfig":
+										owns = false
+									}
+								}
+							}
+							return true
+						})
+						return false
+					})
+					facts["startLoopsOwnTheirListener"] = owns && spawned > 0
 				case "Server.Stop":
 					for _, st := range d.Body.List {
 						src := nodeString(fset, names, st)
